@@ -369,3 +369,29 @@ def run(ctx):
                 ctx.ok('C20.5-builder-last-wins', inst, 'incoming entries are appended to the builder\'s map', ctx.where(XB, bb))
     if n_bl == 0:
         ctx.ok('C20.5-builder-last-wins', 'builders', 'no map merge in the builders (entries are inserted one by one)')
+
+    # the derived Serialize writes a module atom; the derived Deserialize must insist on that very atom
+    ctx.rule('C20.6-derive-module-name', '#[derive(ElixirStruct)] hands the same module-name string to the generator of Serialize (which writes it as __struct__) and to the generator of Deserialize (which compares __struct__ with it): '
+             'a generator that is given the bare alias instead accepts maps tagged with a different module atom', floor=1)
+    DB_ = P.B('erltf_serde_derive::derive_elixir_struct')
+    if DB_ is not None:
+        calls_ = {}
+        for bb, t in DB_.calls():
+            n_ = callee_of(t)[0] or ''
+            if n_ in ('erltf_serde_derive::generate_serialize_impl', 'erltf_serde_derive::generate_deserialize_impl'):
+                calls_[n_.rsplit('::', 1)[1]] = (bb, t)
+        if len(calls_) == 2:
+            (sb_, st_), (db_, dt_) = calls_['generate_serialize_impl'], calls_['generate_deserialize_impl']
+            s_strs = [canon(DB_, a) for a, ty in zip(st_['args'], st_.get('aty') or []) if ty.replace("'_ ", '') in ('&str', "&'static str")]
+            d_strs = [canon(DB_, a) for a, ty in zip(dt_['args'], dt_.get('aty') or []) if ty.replace("'_ ", '') in ('&str', "&'static str")]
+            if s_strs and d_strs and s_strs == d_strs:
+                ctx.ok('C20.6-derive-module-name', 'module-name', 'both generators receive the same module-name value', ctx.where(DB_, db_))
+            elif not s_strs or not d_strs:
+                ctx.undecided('C20.6-derive-module-name', 'module-name', 'string arguments of the two generators not found (%s / %s)' % (len(s_strs), len(d_strs)), ctx.where(DB_, db_))
+            else:
+                ctx.bad('C20.6-derive-module-name', 'module-name', 'the Deserialize generator is given another module-name value than the Serialize generator: the atom checked on the way in is not the atom written on the way out', ctx.where(DB_, db_),
+                        key='TWIN:erltf_serde_derive::derive_elixir_struct:module-name-arguments')
+        else:
+            ctx.undecided('C20.6-derive-module-name', 'module-name', 'calls of the two generators not found in derive_elixir_struct')
+    else:
+        ctx.info_note('derive macro crate not part of this build')
